@@ -393,8 +393,12 @@ class FKF:
         _assert_numerical_iterable(q, 'Quaternion')
         _assert_numerical_iterable(acc, 'Tri-axial accelerometer sample')
         _assert_numerical_iterable(mag, 'Tri-axial magnetometer sample')
-        ax, ay, az = acc / np.linalg.norm(acc)
-        mx, my, mz = mag / np.linalg.norm(mag)
+        a_norm = np.linalg.norm(acc)
+        m_norm = np.linalg.norm(mag)
+        if not a_norm > 0 or not m_norm > 0:
+            raise ValueError("Accelerometer and magnetometer samples must be non-zero.")
+        ax, ay, az = acc / a_norm
+        mx, my, mz = mag / m_norm
         qw, qx, qy, qz = q
         # Dynamic magnetometer reference vector (eq. 4)
         mD = ax*mx + ay*my + az*mz
@@ -458,6 +462,8 @@ class FKF:
         Sigma_am = np.diag([self.sigma_a]*3 + [self.sigma_m]*3)     # (eq. 28)
         Q = np.zeros((num_samples, 4))
         # Initial quaternion from the accelerometer and magnetometer
+        if not np.linalg.norm(acc[0]) > 0 or not np.linalg.norm(mag[0]) > 0:
+            raise ValueError("The first accelerometer and magnetometer samples must be non-zero.")
         Q[0] = ecompass(acc[0], mag[0], frame='NED', representation='quaternion')
         for t in range(1, num_samples):
             q_ = Q[t-1]                                             # Previous quaternion
